@@ -238,11 +238,13 @@ class Scrollable(WidgetDecoration[WrappedWidget]):
             # Canvas is lower than available vertical space
             canv.pad_trim_top_bottom(0, fill_height)
 
+        # Resolve the pending scroll action / clamp the position even if nothing has to be trimmed:
+        # content that fits into the view is always at position 0
+        self._adjust_trim_top(canv, size)
+
         if canv_cols <= maxcol and canv_rows <= maxrow:
             # Canvas is small enough to fit without trimming
             return canv
-
-        self._adjust_trim_top(canv, size)
 
         # Trim canvas if necessary
         trim_top = self._trim_top
